@@ -17,11 +17,13 @@ import (
 	"verif/harness/internal/core"
 )
 
-// Scheduling aid (not an oracle): how many byte strings termRange.Enumerate
-// would walk for the integer bounds a query is turned into. Queries whose walk
-// is astronomically long cannot be executed inside this process (Go cannot
-// cancel the search; upsidedown also accumulates every visited term); they
-// are executed in a child process with a deadline instead.
+// Scheduling aid (not an oracle): the base-256 distance between the ends of
+// the term ranges a query is turned into. termRange.Enumerate used to walk
+// that many byte strings (open finding c07/range-enumeration-blowup, repaired
+// in /repo bec9de5). Should that behaviour return, such a query can never be
+// executed inside this process (Go cannot cancel the search; upsidedown also
+// accumulates every visited term), so it runs in a child process with a
+// deadline.
 
 // queryIntBounds mirrors the argument preparation of NewNumericRangeSearcher
 // only to find out which term ranges the real splitter will hand to Enumerate.
@@ -62,10 +64,9 @@ func walkLength(mn, mx int64) *big.Int {
 	return total
 }
 
-var (
-	walkInProcess = big.NewInt(100_000)            // executed in-process below this
-	walkHopeless  = new(big.Int).Lsh(big.NewInt(1), 44) // >= 2^44 steps: cannot finish within the child's deadline on any machine
-)
+// executed in-process when the byte distance is below this (a base-256 walk of
+// that length, the behaviour before the repair, still finishes in seconds)
+var walkInProcess = big.NewInt(1 << 20)
 
 func init() {
 	core.RegisterChild("c07query", childQuery)
